@@ -98,6 +98,7 @@ impl Check for C11 {
                         expected: *r.pick(&[Exp::None, Exp::Initial, Exp::Learned]),
                         size: *r.pick(&[24u32, 100, 100, 9000, 70_000]),
                         declared: Declared::Valid,
+                        shared_body: None,
                     }),
                 }
             }
@@ -319,11 +320,11 @@ impl Check for C12 {
             let mut reqs = Vec::new();
             for _ in 0..r.urange(3, 8) {
                 match r.below(8) {
-                    0 => reqs.push(Req::Put { path: "../evil".into(), expected: Exp::None, size: *r.pick(&[24u32, 5000, 300_000]), declared: Declared::Valid }),
-                    1 => reqs.push(Req::Put { path: "k1".into(), expected: Exp::Learned, size: *r.pick(&[24u32, 5000, 300_000]), declared: Declared::WrongHash }),
+                    0 => reqs.push(Req::Put { path: "../evil".into(), expected: Exp::None, size: *r.pick(&[24u32, 5000, 300_000]), declared: Declared::Valid, shared_body: None }),
+                    1 => reqs.push(Req::Put { path: "k1".into(), expected: Exp::Learned, size: *r.pick(&[24u32, 5000, 300_000]), declared: Declared::WrongHash, shared_body: None }),
                     2 => reqs.push(Req::Get { path: "missing".into() }),
                     3 => reqs.push(Req::Delete { path: "/abs".into(), expected: Exp::None }),
-                    4 => reqs.push(Req::Put { path: (*r.pick(&["k1", "n/new"])).into(), expected: Exp::Learned, size: 40, declared: Declared::Valid }),
+                    4 => reqs.push(Req::Put { path: (*r.pick(&["k1", "n/new"])).into(), expected: Exp::Learned, size: 40, declared: Declared::Valid, shared_body: None }),
                     5 => reqs.push(Req::Get { path: "k1".into() }),
                     6 => reqs.push(Req::List),
                     _ => reqs.push(Req::Delete { path: "k1".into(), expected: Exp::Learned }),
